@@ -422,8 +422,4 @@ theorem overlap_vocab_for_pipeline_partial (w : Nat) :
       (fun x => x.map (Pipeline.Vocab.overlapId w x)) :=
   overlap_whole_for_pipeline_partial _ _ _ (vocab_overlap_windowLocal w)
 
-/-- former names, kept for Props/C01.lean -/
-abbrev overlap_whole_for_pipeline := @overlap_whole_for_pipeline_partial
-abbrev overlap_vocab_for_pipeline := @overlap_vocab_for_pipeline_partial
-
 end Strax.C09
